@@ -476,6 +476,184 @@ impl Workload for Agreement {
     }
 }
 
+// ------------------------------------------------------------------------------------------- (b')
+
+/// The kind table: every typed position of the language (`H` marks the hole) against one expression of every
+/// kind. The expected verdict is the language's kinding rule for the position (which kinds it admits), written
+/// down here independently of the order in which the checker happens to visit things.
+pub struct KindTable {
+    pub variants: u64,
+}
+
+#[derive(Clone, Copy, PartialEq, Debug)]
+enum K {
+    Text,
+    Number,
+    Status,
+    Prim,
+    Obj,
+    Arr,
+    Prop,
+    PropPrim,
+    Content,
+    Xfer,
+    Uri,
+    Rel,
+    Any,
+}
+
+const FILLERS: [(&str, K); 14] = [
+    ("\"t\"", K::Text),
+    ("201", K::Number),
+    ("4XX", K::Status),
+    ("num", K::Prim),
+    ("{}", K::Obj),
+    ("[num]", K::Arr),
+    ("('p {})", K::Prop),
+    ("('p num)", K::PropPrim),
+    ("<>", K::Content),
+    ("(get -> {})", K::Xfer),
+    ("/zza", K::Uri),
+    ("(/zza on get -> {})", K::Rel),
+    ("({} ~ num)", K::Any),
+    ("(<> :: <status=404>)", K::Content),
+];
+
+fn schema(k: K) -> bool {
+    matches!(k, K::Prim | K::Obj | K::Arr | K::Uri | K::Rel | K::Any)
+}
+fn content_like(k: K) -> bool {
+    schema(k) || k == K::Content
+}
+
+/// (name, text with `H`, admitted kinds)
+fn contexts() -> Vec<(&'static str, &'static str, fn(K) -> bool)> {
+    fn obj(k: K) -> bool {
+        k == K::Obj
+    }
+    fn text(k: K) -> bool {
+        k == K::Text
+    }
+    fn status(k: K) -> bool {
+        matches!(k, K::Number | K::Status)
+    }
+    fn prop(k: K) -> bool {
+        matches!(k, K::Prop | K::PropPrim)
+    }
+    fn prop_prim(k: K) -> bool {
+        k == K::PropPrim
+    }
+    fn uri(k: K) -> bool {
+        k == K::Uri
+    }
+    fn xfer(k: K) -> bool {
+        k == K::Xfer
+    }
+    fn rel_like(k: K) -> bool {
+        matches!(k, K::Rel | K::Uri)
+    }
+    fn prim(k: K) -> bool {
+        k == K::Prim
+    }
+    fn rec_body(k: K) -> bool {
+        schema(k) && k != K::Uri
+    }
+    vec![
+        ("headers-alone", "let zzk = <headers=H, {}>;", obj),
+        ("headers-after-status", "let zzk = <status=200, headers=H, {}>;", obj),
+        ("headers-before-status", "let zzk = <headers=H, status=200, {}>;", obj),
+        ("headers-after-media", "let zzk = <media=\"text/plain\", headers=H>;", obj),
+        ("headers-last-of-three", "let zzk = <status=200, media=\"text/plain\", headers=H, {}>;", obj),
+        ("media-alone", "let zzk = <media=H, {}>;", text),
+        ("media-after-status", "let zzk = <status=200, media=H, {}>;", text),
+        ("media-before-status", "let zzk = <media=H, status=200>;", text),
+        ("media-after-headers", "let zzk = <headers={}, media=H, {}>;", text),
+        ("status-alone", "let zzk = <status=H, {}>;", status),
+        ("status-after-media", "let zzk = <media=\"text/plain\", status=H>;", status),
+        ("body", "let zzk = <H>;", schema),
+        ("body-after-status", "let zzk = <status=200, H>;", schema),
+        ("array-item", "let zzk = [H];", schema),
+        ("property-value", "let zzk = { 'a H };", schema),
+        ("object-member", "let zzk = { 'a num, H };", prop),
+        ("join-left", "let zzk = H & {};", obj),
+        ("join-right", "let zzk = {} & { 'a num } & H;", obj),
+        ("sum-with-primitive", "let zzk = H | num;", prim),
+        ("sum-with-object", "let zzk = {} | H;", obj),
+        ("any-operand", "let zzk = H ~ num;", schema),
+        ("ranges-operand", "let zzk = H :: <status=404>;", content_like),
+        ("transfer-domain", "let zzk = put : H -> {};", content_like),
+        ("transfer-range", "let zzk = get -> H;", content_like),
+        ("relation-uri", "let zzk = H on get -> {};", uri),
+        ("relation-transfer", "let zzk = /zzb on H;", xfer),
+        ("relation-second-transfer", "let zzk = /zzb on get -> {}, H;", xfer),
+        ("resource", "res H;", rel_like),
+        ("optional-mark", "let zzk = H ?;", prop),
+        ("required-mark", "let zzk = { H ! };", prop),
+        ("uri-variable", "let zzk = /zzb/{ H };", prop_prim),
+        ("rec-body", "let zzk = rec zzr H;", rec_body),
+        ("reference-declaration", "let @zzk = H;", schema),
+        ("argument-of-join-function", "let zzf zzx = zzx & {}; let zzk = zzf H;", obj),
+        ("argument-of-media-function", "let zzf zzx = <status=200, media=zzx, {}>; let zzk = zzf H;", text),
+        ("argument-of-headers-function", "let zzf zzx = <status=200, headers=zzx, {}>; let zzk = zzf H;", obj),
+        ("argument-of-array-function", "let zzf zzx = [zzx]; let zzk = zzf H;", schema),
+        ("second-argument", "let zzf zzy zzx = { 'a zzy } & zzx; let zzk = zzf num H;", obj),
+        ("function-used-before-declared", "let zzk = zzf H; let zzf zzx = zzx & {};", obj),
+    ]
+}
+
+impl Workload for KindTable {
+    fn len(&self) -> u64 {
+        contexts().len() as u64 * FILLERS.len() as u64 * self.variants
+    }
+    fn case_json(&self, seed: u64, idx: u64) -> Value {
+        json!({"seed": seed, "index": idx})
+    }
+    fn run(&self, seed: u64, idx: u64, st: &mut Stats) -> Vec<Violation> {
+        let cs = contexts();
+        let pair = idx / self.variants;
+        let (cname, ctext, admits) = cs[(pair / FILLERS.len() as u64) as usize];
+        let (ftext, fk) = FILLERS[(pair % FILLERS.len() as u64) as usize];
+        let decl = ctext.replace('H', ftext);
+        let variant = idx % self.variants;
+        // variant 0: a minimal program; others: a generated well-kinded program, declaration first or last,
+        // in any of its modules
+        let mut src = if variant == 0 {
+            Sources::single("res /zzroot on get -> <{}>;\n")
+        } else {
+            match gen_wt_case(seed, "c07kinds", idx, &crate::gen::wt::Cfg::default(), st) {
+                Some(c) => c.sources,
+                None => return vec![],
+            }
+        };
+        let k = (variant as usize / 2) % src.files.len();
+        if variant % 2 == 0 || src.files[k].1.contains("use ") {
+            src.files[k].1.push_str(&format!("\n{decl}\n"));
+        } else {
+            src.files[k].1 = format!("{decl}\n{}", src.files[k].1);
+        }
+        let want = if admits(fk) { "accepted" } else { "rejected:InvalidType" };
+        st.inc(&format!("kind_table:{want}"));
+        st.nontrivial(hash64(&(cname, ftext, variant)));
+        match verdict(&src) {
+            Ok(v) if v == want => vec![],
+            Ok(v) => vec![Violation::new(
+                "the checker's verdict on a typed position differs from the language's kinding rule for it",
+                json!({"signature": format!("C07 kind-table:{cname}:{fk:?}:expected {want}:got {v}"), "declaration": decl, "sources": src.to_json()}),
+            )],
+            Err(sig) => vec![Violation::new(
+                "the checker crashed on a kind-table entry",
+                json!({"signature": format!("C07 kind-table-crash:{cname}:{fk:?}: {sig}"), "declaration": decl, "sources": src.to_json()}),
+            )],
+        }
+    }
+    fn run_json(&self, case: &Value, st: &mut Stats) -> Vec<Violation> {
+        self.run(case["seed"].as_u64().unwrap_or(1), case["index"].as_u64().unwrap_or(0), st)
+    }
+    fn chunk(&self) -> u64 {
+        100
+    }
+}
+
 pub fn run(ctx: &Ctx) -> i32 {
     let mut acc = Acc::new(ctx);
     let u = Unify::new(ctx.quick());
@@ -488,6 +666,10 @@ pub fn run(ctx: &Ctx) -> i32 {
         n: if ctx.quick() { 9600 } else { 480_000 },
     };
     acc.pool(&ag, "c07agree", true);
+    let kt = KindTable {
+        variants: if ctx.quick() { 3 } else { 40 },
+    };
+    acc.pool(&kt, "c07kinds", true);
     // Canary: the reference unifier rejects v0 = property[v0] and solves v0 = func[v1]->text.
     let canary = ru::unify(3, &[(T::Var(0), T::Prop(Box::new(T::Var(0))))]).is_none()
         && ru::unify(3, &[(T::Var(0), T::Fun(vec![T::Var(1)], Box::new(T::Text)))]).is_some()
